@@ -83,7 +83,7 @@ def run(ctl, A, sc):
 
     ctl.spawn('L1', body)
     ctl.start()
-    if not ctl.finished.wait(6.0):
+    if not rt.wait_finished(ctl, 6.0):
         ctl.status = 'stuck'
     ctl.log('End', status=ctl.status if ctl.status in ('ok', 'hang') else 'stuck')
     return rt.result_payload(ctl)
